@@ -36,6 +36,10 @@ class HarnessError(Exception):
     """The machinery (not the code under test) misbehaved.  Never reported as a VIOLATION."""
 
 
+class AbortUnit(BaseException):
+    """Too many hangs in one worker: stop the unit (its violations are already recorded)."""
+
+
 class Hang(BaseException):
     """Raised by the watchdog inside an evaluation that made no progress (BaseException: survives `except Exception`)."""
 
@@ -136,6 +140,7 @@ class _Watch:
         self.limit = 5
         self.armed = False
         self.installed = False
+        self.hangs = 0
 
     def install(self):
         if self.installed:
@@ -207,8 +212,11 @@ class Rec:
     # guarded evaluation ---------------------------------------------------------------------------
     def guard(self, clause: str, witness, size, fn, *args, limit: int = 5):
         """Run fn(*args) under the watchdog.  Returns (ok, result).  Exceptions / hangs become violations."""
+        if WATCH.hangs >= 12:
+            self.n["cap_hit"] += 1
+            raise AbortUnit()
         WATCH.serial += 1
-        WATCH.limit = limit
+        WATCH.limit = limit if WATCH.hangs < 3 else 2
         WATCH.armed = True
         try:
             res = fn(*args)
@@ -216,6 +224,7 @@ class Rec:
             return True, res
         except Hang as e:
             WATCH.armed = False
+            WATCH.hangs += 1
             sig, detail = crash_sig(e)
             self.violation(clause, sig, witness, "did not terminate: " + detail, size)
         except HarnessError:
@@ -303,8 +312,11 @@ def _call(arg):
     mod = importlib.import_module(modname)
     rec = Rec(mod.ID)
     WATCH.install()
+    WATCH.hangs = 0
     try:
         mod.run_unit(unit, rec)
+    except AbortUnit:
+        rec.note("unit aborted after 12 hangs (violations recorded; remaining cases of the unit skipped)")
     except HarnessError as e:
         return {"harness_error": f"{e}", "unit": repr(unit)[:300]}
     except Hang as e:
